@@ -12,7 +12,8 @@ for d in sorted(glob.glob("/verif/refactors/C*-*")):
     rid = os.path.basename(d)
     meta = json.load(open(d + "/meta.json"))
     if not only or any(rid.startswith(o) or o in rid for o in only):
-        rc, out = sh(f"git -C /repo apply {d}/patch.diff")
+        pf = d + "/patch_rebased.diff" if os.path.exists(d + "/patch_rebased.diff") else d + "/patch.diff"  # rebased: same change carried over a later fix: commit
+        rc, out = sh(f"git -C /repo apply {pf}")
         if rc:
             print(rid, "patch does not apply"); continue
         try:
